@@ -98,6 +98,25 @@ def coq_eval_many(named_texts, workers=16, timeout=900):
   return res
 
 
+def stratified(items, key, n, rng, per=1):
+  """Quick-tier sub-sampling that cannot skip a family: at least `per` items of every stratum key(item),
+  the rest drawn uniformly; order preserved.  (Uniform sub-sampling missed two seeded changes: DESIGN 10.6.)"""
+  strata = {}
+  for i, it in enumerate(items):
+    strata.setdefault(key(it), []).append(i)
+  chosen = set()
+  for k in sorted(strata, key=str):
+    idx = strata[k]
+    for j in rng.choice(len(idx), size=min(per, len(idx)), replace=False):
+      chosen.add(idx[int(j)])
+  rest = [i for i in range(len(items)) if i not in chosen]
+  extra = max(0, n - len(chosen))
+  if extra and rest:
+    for j in rng.choice(len(rest), size=min(extra, len(rest)), replace=False):
+      chosen.add(rest[int(j)])
+  return [items[i] for i in sorted(chosen)]
+
+
 def zlit(v):
   v = int(v)
   return f"({v})" if v < 0 else str(v)
